@@ -44,3 +44,30 @@ package storage
 //@   loop 0 invariant [C12.trapping-nonneg] storedMass >= 0
 //@   loop 0 step [C12.trapping-balance] pre(storedMass) + inflowMass.at(i)*deltaT == post(storedMass) + trappedMass.at(i) + outflowLoad.at(i)*deltaT
 //@   loop 0 step [C12.trapping-bounds] 0 <= trappedMass.at(i) && trappedMass.at(i) <= inflowMass.at(i)*deltaT && outflowLoad.at(i) >= 0
+
+// ---- C13: reservoir storage water balance ----
+// The adaptive sub-step loop keeps
+//   volume = V0 + inflow*elapsed - outflowVolume + 0.001*(rainAcc - evapAcc)
+// (rain/evaporation accumulators in mm*m^2), volume >= 0 and 0 <= timeRemaining <= deltaT.
+
+//@ func storageWaterBalance(rainfallTS, petTS, inflowTS, demandTS, targetMinimumVolume, targetMinimumCapacity, initialVolume, initialLevel, initialArea, deltaT, nLVA, levels, volumes, areas, minRelease, maxRelease, volumeTS, outflowTS, rainfallVolume, evaporationVolume) returns (volume, level, area)
+//@   noalias
+//@   panics allowed
+//@   tables levels, volumes, areas, minRelease, maxRelease
+//@   safety C13 kinds=bounds,nil,conv
+//@   requires rainfallTS.len == petTS.len && rainfallTS.len == inflowTS.len && rainfallTS.len == demandTS.len && rainfallTS.len == targetMinimumVolume.len && rainfallTS.len == targetMinimumCapacity.len
+//@   requires rainfallTS.len == volumeTS.len && rainfallTS.len == outflowTS.len && rainfallTS.len == rainfallVolume.len && rainfallTS.len == evaporationVolume.len
+//@   requires nLVA >= 2 && levels.len == nLVA && volumes.len == nLVA && areas.len == nLVA && minRelease.len == nLVA && maxRelease.len == nLVA
+//@   requires forall(a, 0, nLVA, forall(b, 0, nLVA, implies(a < b, volumes.at(a) < volumes.at(b)))) && volumes.at(0) >= 0
+//@   requires deltaT > 0 && initialVolume >= 0
+//@   assigns volumeTS.cells, outflowTS.cells, rainfallVolume.cells, evaporationVolume.cells
+//@   loop 0 invariant 0 <= i && i <= n
+//@   loop 0 invariant [C13.volume-nonneg] volume >= 0
+//@   loop 0 step [C13.balance] volumeTS.at(i) == pre(volume) + (inflowTS.at(i) - outflowTS.at(i))*deltaT + (rainfallVolume.at(i) - evaporationVolume.at(i))*deltaT
+//@   loop 0 step [C13.volume-out] volumeTS.at(i) == post(volume) && volumeTS.at(i) >= 0
+//@   loop 1 invariant 0 <= timeRemaining && timeRemaining <= deltaT && subtimestep > 0
+//@   loop 1 invariant volume >= 0
+//@   loop 1 invariant [C13.substep-balance] volume == pre(volume) + inflow*(deltaT - timeRemaining) - outflowVolume + 0.001*(rainfallVolForTimestep - evaporationVolForTimestep)
+//@   loop 2 invariant 0 < subtimestep && subtimestep <= timeRemaining
+//@   loop 2 invariant rainfallVolForTimestep == pre(rainfallVolForTimestep) && evaporationVolForTimestep == pre(evaporationVolForTimestep)
+//@   ensures [C13.final-level-area] implies(volumeTS.len >= 0, level == cappedPiecewise(volume, levels) && area == cappedPiecewise(volume, areas))
